@@ -78,7 +78,7 @@ CLAIMED = {
     "C18": dict(
         technique="model-based property testing with rapid against a map model (both transaction implementations); harness-owned interleaving of concurrent transactions by parking them inside handlers; crash tracing for unrecoverable runtime errors",
         text=("Generated call sequences (Get/GetHandler/Set/SetHandler with succeeding, failing, aborting and result-checking handlers, records whose contents cannot be produced, Commit, Commit under an already cancelled context, Abort; read-write and read-only modes) on the real in-memory transactions (via the verif hook) and on the serial fallback are checked against a map model: "
-              "one result per call in order with matching unique ids, read-your-writes across transactions, handler errors, each handler handed the result Commit reports, no effect after abort, store released and equal to the model afterwards. A stale leg ends an already ended transaction again while a later one is open. An isolation leg parks 2-6 concurrent transactions "
+              "one result per call in order with matching unique ids, read-your-writes across transactions, handler errors, each handler handed the result Commit reports, no effect after abort, store released and equal to the model afterwards. A stale leg ends an already ended transaction again while a later one is open. A refused leg makes the store refuse Transaction() calls of a second caller (the dispatcher itself, or an FS write / remove / rename) while a transaction is open, which must re-read what it read. An isolation leg parks 2-6 concurrent transactions "
               "inside handlers and checks that never two are inside and nothing is torn. Sampled exploration; the isolation schedule is owned only at handler granularity."),
         note="a test-binary death (fatal error such as a double unlock) is reported as a violation with the traced history; Commit's return value for an aborted transaction is not asserted",
     ),
@@ -104,7 +104,7 @@ CLAIMED = {
     "C12": dict(
         technique="property-based testing with rapid: generated logical trees rendered as tar archives (order, implicit directories, spellings, threshold sizes); model oracle = the logical tree; harness-gated destination calls released in a drawn order (schedule of the background writers)",
         text=("Generated archives are unpacked into the default, an explicit mem.FS, an OpenFile+Chmod+Mkdir-only wrapper or os.FS destination whose calls are released one at a time in a generated order; after Done() the tar FS and the destination must equal the model exactly "
-              "(files: bytes and permission bits; explicit directories, including the root when it is an entry: bits; ancestors: kind; nothing else). Separate legs: 85-120 files (more than the small-buffer pool holds) and archives containing one escaping entry. Sampled exploration of inputs and schedules."),
+              "(files: bytes and permission bits; explicit directories, including the root when it is an entry: bits; ancestors: kind; nothing else). Names include siblings that are string prefixes of each other, dot names and names with adjacent dots that are not parent references (a..d, ..c, ..., f3..x). Separate legs: 85-120 files (more than the small-buffer pool holds) and archives containing one escaping entry. Sampled exploration of inputs and schedules."),
         note="schedules are owned at destination-call granularity only (what happens inside a destination call is free-running); directories with a later descendant entry are compared by kind only on in-memory destinations while known finding C12:dir-mode-lost-mkdirall-vs-mkdir reproduces (full check remains on os.FS)",
     ),
     "C13": dict(
@@ -117,7 +117,7 @@ CLAIMED = {
     "C15": dict(
         technique="property-based testing with rapid over small concurrent programs; harness-owned cooperative scheduler over the real in-memory store (yield points at every store transaction and blob operation); serializability oracle = set of outcomes of all sequential orders; exhaustive DFS over schedules with <=2 pre-emptions; a completely enumerated family of single-mutator/observer programs; free-running legs incl. the race detector",
         text=("Generated programs (2-3 goroutines x 1-3 operations incl. per-goroutine handle I/O) run under a scheduler the harness owns; every explored interleaving's results + final tree must equal some sequential order's. "
-              "Per program either 12 drawn schedules or every schedule with <=2 pre-emptions; an independence leg confines goroutines to disjoint subtrees; a storm leg repeats generated Truncate/Write/read bodies through several handles on one file on real cores (windows inside one blob operation); observer legs run ONE mutating operation against read-only threads (stat/readdir/cat) under every <=2-pre-emption schedule (random, and a complete canonical family in the quick tier), so an operation that stops being one step is seen even where two mutators are excluded; free-running legs (hot-file programs, 5 iterations x 20 repetitions, and -race in thorough) look for panics, deadlocks and data races. "
+              "Per program either 12 drawn schedules or every schedule with <=2 pre-emptions; an independence leg confines goroutines to disjoint subtrees; a storm leg repeats generated Truncate/Write/read bodies through several handles on one file on real cores (windows inside one blob operation); a dirstorm leg lets mutator goroutines rewrite the records of permanent children (chmod, handle writes, re-creating opens) while observer goroutines list / stat / remove their directories on real cores (windows inside one store.Set, seen only by listings, which read outside transactions): every listing names every permanent child; observer legs run ONE mutating operation against read-only threads (stat/readdir/cat) under every <=2-pre-emption schedule (random, and a complete canonical family in the quick tier), so an operation that stops being one step is seen even where two mutators are excluded; free-running legs (hot-file programs, 5 iterations x 20 repetitions, and -race in thorough) look for panics, deadlocks and data races. "
               "Bounded: programs are sampled; schedules are exhaustive only up to 2 pre-emptions at transaction/blob-operation granularity."),
         note="cross-thread operation pairs of the 60 listed classes C15:ns:<kinds>:<relation> (operations are multi-transaction: needs a redesign; each class has a recorded witness that its probe replays) are excluded by construction from the serializability legs, all other same-path / ancestor / sibling classes are searched; they remain in the free-running/race legs; in the observer legs only the exactly identified classes C15:obs:* (MkdirAll of >=2 levels, Rename of a directory, a listing racing a rename inside it) are excluded; a data race report is a violation whose schedule cannot be replayed",
     ),
